@@ -335,6 +335,7 @@ func units(tier string) []engine.Unit {
 		s.Run(r)
 	}})
 	us = append(us, fromBusyQueue(int(col.Stack[int](common.N()).DefaultCapacity())), fromBusyQueue(3))
+	us = append(us, engine.Unit{Name: "what-was-handed-out-earlier", Run: keptViews})
 	us = append(us, engine.Unit{Name: "capacity-0", Run: func(r *engine.Rec) {
 		// MakeWithCapacity(0) is documented to panic
 		_, _, out := construct(Op{K: "MakeWithCapacity", I: 0})
